@@ -49,8 +49,13 @@ pub fn fs_create_dir_all(p: &PathBuf) -> Result<(), IoError> { unimplemented!() 
 // no empty, "." or ".." segment except a possibly empty last one. canonical_authority is the
 // lower-cased authority.
 #[verifier::external_body] pub struct RsyncUri { _opaque: () }
-#[verifier::external_body] pub struct CowStr<'a> { _p: &'a () }
-impl<'a> CowStr<'a> {
+// std::borrow::Cow (opaque stand-in; only Cow<'_, str> is used)
+#[verifier::external_body] #[verifier::reject_recursive_types(B)] pub struct Cow<'a, B: ?Sized> { _p: &'a B }
+impl<'a> Cow<'a, str> {
+    // the string's UTF-8 bytes (Cow<str> derefs to str; `as_bytes` is str's)
+    pub uninterp spec fn bytes(&self) -> Seq<u8>;
+    #[verifier::external_body]
+    pub fn as_bytes(&self) -> (r: &[u8]) ensures r@ == self.bytes() { unimplemented!() }
     pub uninterp spec fn view(&self) -> Seq<char>;
     #[verifier::external_body]
     pub fn as_ref(&self) -> (r: &str) ensures r@ == self.view() { unimplemented!() }
@@ -60,16 +65,16 @@ impl RsyncUri {
     pub uninterp spec fn module_spec(&self) -> Seq<char>;
     pub uninterp spec fn path_spec(&self) -> Seq<char>;
     #[verifier::external_body]
-    pub fn canonical_authority(&self) -> (r: CowStr<'_>)
-        ensures r.view() == self.canonical_authority_spec(), safe_component(r.view()),
+    pub fn canonical_authority(&self) -> (r: Cow<'_, str>)
+        ensures r.view() == self.canonical_authority_spec(), safe_component(r.view()), r.bytes() == self.canonical_authority_bytes(),
     { unimplemented!() }
     #[verifier::external_body]
     pub fn module_name(&self) -> (r: &str)
-        ensures r@ == self.module_spec(), safe_component(r@),
+        ensures r@ == self.module_spec(), safe_component(r@), r.spec_bytes() == self.module_spec_bytes(),
     { unimplemented!() }
     #[verifier::external_body]
     pub fn path(&self) -> (r: &str)
-        ensures r@ == self.path_spec(), safe_relative(r@), relative(r@),
+        ensures r@ == self.path_spec(), safe_relative(r@), relative(r@), r.spec_bytes() == self.path_spec_bytes(),
     { unimplemented!() }
 }
 
@@ -80,8 +85,8 @@ impl Https {
     pub uninterp spec fn canonical_authority_spec(&self) -> Seq<char>;
     pub uninterp spec fn bytes_spec(&self) -> Seq<u8>;
     #[verifier::external_body]
-    pub fn canonical_authority(&self) -> (r: CowStr<'_>)
-        ensures r.view() == self.canonical_authority_spec(), no_slash(r.view()),
+    pub fn canonical_authority(&self) -> (r: Cow<'_, str>)
+        ensures r.view() == self.canonical_authority_spec(), no_slash(r.view()), r.bytes() == self.canonical_authority_bytes(),
     { unimplemented!() }
     #[verifier::external_body]
     pub fn as_slice(&self) -> (r: &[u8]) ensures r@ == self.bytes_spec() { unimplemented!() }
@@ -174,7 +179,7 @@ impl Https {
     pub fn authority(&self) -> (r: &str) ensures r@ == self.authority_spec(), no_slash(r@) { unimplemented!() }
     // the URI as a string: exactly its bytes
     #[verifier::external_body] pub fn as_str(&self) -> (r: &str) ensures r.spec_bytes() == self.bytes_spec() { unimplemented!() }
-    #[verifier::external_body] pub fn path(&self) -> (r: &str) { unimplemented!() }
+    #[verifier::external_body] pub fn path(&self) -> (r: &str) ensures r@ == self.path_spec(), r.spec_bytes() == self.path_spec_bytes() { unimplemented!() }
 }
 impl PathBuf {
     // PathBuf::join: as push on a copy
@@ -200,3 +205,32 @@ pub assume_specification [str::to_uppercase] (s: &str) -> (r: std::string::Strin
 pub uninterp spec fn string_bytes(s: Seq<char>) -> Seq<u8>;
 pub assume_specification [std::string::String::as_bytes] (s: &std::string::String) -> (r: &[u8])
     ensures r@ == string_bytes(s@);
+
+// ---- rpki::crypto digest context: `pieces` is the sequence of byte strings fed to `update`, in order
+// (the digest is taken over their concatenation)
+#[verifier::external_body] pub struct DigestContext { _opaque: () }
+impl DigestAlgorithm {
+    #[verifier::external_body]
+    pub fn start(&self) -> (r: DigestContext) ensures r.pieces() == Seq::<Seq<u8>>::empty() { unimplemented!() }
+}
+impl DigestContext {
+    pub uninterp spec fn pieces(&self) -> Seq<Seq<u8>>;
+    #[verifier::external_body]
+    pub fn update(&mut self, data: &[u8]) ensures final(self).pieces() == old(self).pieces().push(data@) { unimplemented!() }
+    #[verifier::external_body]
+    pub fn finish(self) -> (r: Digest) ensures r.pieces_spec() == self.pieces() { unimplemented!() }
+}
+impl Digest {
+    // the byte strings this digest was computed over
+    pub uninterp spec fn pieces_spec(&self) -> Seq<Seq<u8>>;
+}
+impl RsyncUri {
+    pub uninterp spec fn canonical_authority_bytes(&self) -> Seq<u8>;
+    pub uninterp spec fn module_spec_bytes(&self) -> Seq<u8>;
+    pub uninterp spec fn path_spec_bytes(&self) -> Seq<u8>;
+}
+impl Https {
+    pub uninterp spec fn canonical_authority_bytes(&self) -> Seq<u8>;
+    pub uninterp spec fn path_spec(&self) -> Seq<char>;
+    pub uninterp spec fn path_spec_bytes(&self) -> Seq<u8>;
+}
